@@ -380,21 +380,82 @@ type RedefCase struct {
 	Actions []RedefAction `json:"actions"`
 }
 
-// RedefAction defines f<Fn>(x) = A*x+B, or uses f<Fn>(Arg), or bumps the
-// counter variable through inc().
+// RedefAction defines f<Fn>, or uses f<Fn>(Arg), or bumps the counter variable
+// through inc(). A definition has a body: "" f(x) = A*x+B; "call" f(x) =
+// f<To>(x)+B; "host" f(x) = hostc11.Apply(f<To>, x)+B (the function passed by
+// name to a host function); "defer" the same through a deferred call which
+// stores the result. A reference to another function is bound late: it
+// designates the definition of the same chunk, or else the one current when
+// the referring function was defined (a referring function leaves the model
+// when the function it refers to is redefined by a later chunk: the property
+// does not say which one it then calls). With2 > 0 defines
+// f<With2-1> (linear, A2*x+B2) in the same chunk, after (Second) or before the
+// function which may refer to it.
 type RedefAction struct {
-	Kind string `json:"kind"` // define | use | inc | usevar
-	Fn   int    `json:"fn"`
-	A    int    `json:"a"`
-	B    int    `json:"b"`
-	Arg  int    `json:"arg"`
+	Kind   string `json:"kind"` // define | use | inc | usevar
+	Fn     int    `json:"fn"`
+	A      int    `json:"a"`
+	B      int    `json:"b"`
+	Arg    int    `json:"arg"`
+	Body   string `json:"body,omitempty"`
+	To     int    `json:"to,omitempty"`
+	With2  int    `json:"with2,omitempty"`
+	A2     int    `json:"a2,omitempty"`
+	B2     int    `json:"b2,omitempty"`
+	Second bool   `json:"second,omitempty"`
+}
+
+// rdef is the model of a definition.
+type rdef struct {
+	body string
+	a, b int
+	to   int
+}
+
+// rEval evaluates f<fn>(x) in the model (late binding); ok is false when a
+// referenced function is not defined or the chain of references loops.
+func rEval(model map[int]rdef, fn, x, depth int) (int, bool) {
+	d, ok := model[fn]
+	if !ok || depth > 8 {
+		return 0, false
+	}
+	if d.body == "" {
+		return d.a*x + d.b, true
+	}
+	v, ok := rEval(model, d.to, x, depth+1)
+	return v + d.b, ok
+}
+
+func hasDef(model map[int]rdef, fn int) bool {
+	_, ok := model[fn]
+	return ok
+}
+
+func rSrc(fn int, d rdef) string {
+	switch d.body {
+	case "call":
+		return fmt.Sprintf("func f%d(x int) int { return f%d(x) + %d }", fn, d.to, d.b)
+	case "host":
+		return fmt.Sprintf("func f%d(x int) int { return hostc11.Apply(f%d, x) + %d }", fn, d.to, d.b)
+	case "defer":
+		return fmt.Sprintf("func f%d(x int) (r int) {\n\tdefer func() { r += %d }()\n\tdefer hostc11.Store(&r, f%d, x)\n\treturn 0\n}", fn, d.b, d.to)
+	}
+	return fmt.Sprintf("func f%d(x int) int { return %d*x + %d }", fn, d.a, d.b)
 }
 
 func (rc *RedefCase) check() (sig, msg string) {
 	out := &syncBuf{}
 	i := newInterp(out, interp.Options{})
-	type lin struct{ a, b int }
-	model := map[int]lin{}
+	if err := i.Use(interp.Exports{"hostc11/hostc11": {
+		"Apply": reflect.ValueOf(func(f func(int) int, x int) int { return f(x) }),
+		"Store": reflect.ValueOf(func(p *int, f func(int) int, x int) { *p += f(x) }),
+	}}); err != nil {
+		return "redef/harness", err.Error()
+	}
+	if _, err := i.Eval(`import "hostc11"`); err != nil {
+		return "redef/harness", err.Error()
+	}
+	model := map[int]rdef{}
 	cnt, haveCnt := 0, false
 	var fail string
 	var failSig string
@@ -403,14 +464,46 @@ func (rc *RedefCase) check() (sig, msg string) {
 			for k, a := range rc.Actions {
 				switch a.Kind {
 				case "define":
-					src := fmt.Sprintf("func f%d(x int) int { return %d*x + %d }", a.Fn, a.A, a.B)
+					d := rdef{body: a.Body, a: a.A, b: a.B, to: a.To}
+					if d.body != "" {
+						// the function referred to must exist (now, or defined by this chunk)
+						if _, ok := model[d.to]; !ok && !(a.With2 > 0 && a.With2-1 == d.to) || d.to == a.Fn {
+							d.body = ""
+						}
+					}
+					src := rSrc(a.Fn, d)
+					if a.With2 > 0 && a.With2-1 != a.Fn {
+						d2 := rdef{a: a.A2, b: a.B2}
+						if a.Second {
+							src = src + "\n\n" + rSrc(a.With2-1, d2)
+						} else {
+							src = rSrc(a.With2-1, d2) + "\n\n" + src
+						}
+						model[a.With2-1] = d2
+					}
 					if _, err := i.Eval(src); err != nil {
 						failSig, fail = "redefine-rejected", fmt.Sprintf("step %d: %s: %v", k, src, err)
 						return nil
 					}
-					model[a.Fn] = lin{a.A, a.B}
+					model[a.Fn] = d
+					// A function compiled by an earlier chunk which refers to a function
+					// redefined now: the property does not say which definition it calls
+					// from now on. It leaves the model until it is defined again.
+					changed := map[int]bool{a.Fn: true}
+					if a.With2 > 0 {
+						changed[a.With2-1] = true
+					}
+					for again := true; again; {
+						again = false
+						for g, gd := range model {
+							if !changed[g] && gd.body != "" && (changed[gd.to] || model[gd.to] == (rdef{}) && !hasDef(model, gd.to)) {
+								delete(model, g)
+								again = true
+							}
+						}
+					}
 				case "use":
-					m, ok := model[a.Fn]
+					want, ok := rEval(model, a.Fn, a.Arg, 0)
 					if !ok {
 						continue
 					}
@@ -419,8 +512,8 @@ func (rc *RedefCase) check() (sig, msg string) {
 						failSig, fail = "use-error", fmt.Sprintf("step %d: f%d(%d): %v", k, a.Fn, a.Arg, err)
 						return nil
 					}
-					if want := m.a*a.Arg + m.b; !v.IsValid() || !v.CanInt() || int(v.Int()) != want {
-						failSig, fail = "use-wrong-result", fmt.Sprintf("step %d: f%d(%d) = %v, the current definition %d*x+%d gives %d", k, a.Fn, a.Arg, v, m.a, m.b, want)
+					if !v.IsValid() || !v.CanInt() || int(v.Int()) != want {
+						failSig, fail = "use-wrong-result", fmt.Sprintf("step %d: f%d(%d) = %v, the current definitions give %d", k, a.Fn, a.Arg, v, want)
 						return nil
 					}
 				case "inc":
@@ -468,6 +561,19 @@ func genRedef(t *rapid.T) *RedefCase {
 		switch rapid.IntRange(0, 9).Draw(t, "kind") {
 		case 0, 1, 2:
 			a.Kind, a.A, a.B = "define", rapid.IntRange(-5, 5).Draw(t, "a"), rapid.IntRange(-9, 9).Draw(t, "b")
+			a.Body = []string{"", "", "call", "host", "defer", "host", "defer"}[rapid.IntRange(0, 6).Draw(t, "body")]
+			if a.Body != "" {
+				a.To = rapid.IntRange(0, 3).Draw(t, "to")
+			}
+			if rapid.IntRange(0, 2).Draw(t, "with2") == 0 {
+				a.With2 = 1 + rapid.IntRange(0, 3).Draw(t, "fn2")
+				a.A2, a.B2 = rapid.IntRange(-5, 5).Draw(t, "a2"), rapid.IntRange(-9, 9).Draw(t, "b2")
+				a.Second = rapid.Bool().Draw(t, "second")
+				if a.Body != "" && a.With2-1 != a.Fn && rapid.IntRange(0, 9).Draw(t, "tosame") < 7 {
+					// the function referred to is (re)defined by the same chunk
+					a.To = a.With2 - 1
+				}
+			}
 		case 3, 4, 5, 6:
 			a.Kind, a.Arg = "use", rapid.IntRange(-10, 10).Draw(t, "arg")
 		case 7, 8:
@@ -577,7 +683,7 @@ func init() {
 	vf.Register(&vf.Check{
 		ID:    "C11",
 		Level: "exploration",
-		Rule: "case A = a program from internal/progen (REPL profile: no goto, no early return from main, no deliberate fault) x a drawn cut of its declarations and of its top-level main statements into consecutive chunks x one variant of {successive Eval calls, Compile+Execute per chunk, whole Compile+Execute, go/parser with the interpreter FileSet + CompileAST, EvalPath on a real temp file, EvalPath on a MapFS}; oracle: stdout, ending and package variables equal those of one Eval of the whole source (itself tied to compiled Go by C01); case B = a history of define/redefine/use actions on linear functions f0..f3 and a counter variable, compared with a model; non-trivial A = at least 4 chunks, B = a use after a redefinition; distinct by full case content",
+		Rule:  "case A = a program from internal/progen (REPL profile: no goto, no early return from main, no deliberate fault) x a drawn cut of its declarations and of its top-level main statements into consecutive chunks x one variant of {successive Eval calls, Compile+Execute per chunk, whole Compile+Execute, go/parser with the interpreter FileSet + CompileAST, EvalPath on a real temp file, EvalPath on a MapFS}; oracle: stdout, ending and package variables equal those of one Eval of the whole source (itself tied to compiled Go by C01); case B = a history of define/redefine/use actions on linear functions f0..f3 and a counter variable, compared with a model; non-trivial A = at least 4 chunks, B = a use after a redefinition; distinct by full case content",
 		Assumptions: []string{
 			"turning main-body locals into package variables cannot change meaning because generated names are unique",
 			"chunks are homogeneous (declarations or statements), as the incremental parser requires",
